@@ -185,7 +185,8 @@ type env struct {
 type envOpts struct {
 	nodes          int
 	rf             int
-	maxConcurrency int // 0 = no write gate
+	maxConcurrency int  // 0 = no write gate
+	requestLimits  bool // default request limits: size_bytes_limit 4096, series_limit 2
 	workers        uint
 	forwardTimeout time.Duration
 	maxBackoff     time.Duration         // 0: 1 ns (a peer that answered Unavailable is retried at once)
@@ -259,7 +260,9 @@ func newEnv(t testing.TB, o envOpts) *env {
 	for attempt := 0; attempt < 20; attempt++ {
 		e := &env{eps: eps, peers: ps, reg: prometheus.NewRegistry(), gateReg: prometheus.NewRegistry(), plog: &panicLog{}, runErr: make(chan error, 1)}
 		var cfg limitsContent
-		if o.maxConcurrency > 0 {
+		if o.maxConcurrency > 0 && o.requestLimits {
+			cfg = limitsContent(fmt.Sprintf("write:\n  global:\n    max_concurrency: %d\n  default:\n    request:\n      size_bytes_limit: 4096\n      series_limit: 2\n", o.maxConcurrency))
+		} else if o.maxConcurrency > 0 {
 			cfg = limitsContent(fmt.Sprintf("write:\n  global:\n    max_concurrency: %d\n", o.maxConcurrency))
 		} else {
 			cfg = limitsContent("write:\n  global:\n    max_concurrency: 0\n")
